@@ -634,7 +634,11 @@ func Gen(prop, tier string, seed, run uint64) Plan {
 	}
 	if prop == "C12" {
 		p.CrashEvery = 1
-		p.CrashMax = 60
+		p.CrashMax = 30
+		if r.IntN(3) == 0 {
+			// fewer kill states of more histories, or every kill state of one history
+			p.CrashMax = 80
+		}
 		if tier == "thorough" {
 			p.CrashMax = 400
 		}
